@@ -13,7 +13,7 @@ Definition of the base Qasm module
 """
 
 from abc import ABC, abstractmethod
-from copy import deepcopy
+from copy import copy, deepcopy
 from typing import Optional
 
 import openqasm3.ast as qasm3_ast
@@ -120,6 +120,41 @@ class QasmModule(ABC):  # pylint: disable=too-many-instance-attributes
         """Setter for the unrolled AST"""
         self._unrolled_ast = value
 
+    def _statements_without(self, stmt_type) -> list:
+        """The current statements of the module (the unrolled ones if present) without the
+        statements of type ``stmt_type``, at every nesting level: the blocks of branches, loops,
+        switch cases and subroutine bodies are filtered too. Statements with a filtered block
+        are replaced by shallow copies, the statements of the module are not modified."""
+
+        def without(statements):
+            result = []
+            for stmt in statements:
+                if isinstance(stmt, stmt_type):
+                    continue
+                for attr in ("if_block", "else_block", "block", "body"):
+                    nested = getattr(stmt, attr, None)
+                    if isinstance(nested, list):
+                        stmt = copy(stmt)
+                        setattr(stmt, attr, without(nested))
+                if isinstance(stmt, qasm3_ast.SwitchStatement):
+                    stmt = copy(stmt)
+                    stmt.cases = [
+                        (values, qasm3_ast.CompoundStatement(statements=without(case.statements)))
+                        for values, case in stmt.cases
+                    ]
+                    if stmt.default is not None:
+                        stmt.default = qasm3_ast.CompoundStatement(
+                            statements=without(stmt.default.statements)
+                        )
+                result.append(stmt)
+            return result
+
+        return without(
+            self._statements
+            if len(self._unrolled_ast.statements) == 0
+            else self._unrolled_ast.statements
+        )
+
     def has_measurements(self) -> bool:
         """Check if the module has any measurement operations."""
         if self._has_measurements is None:
@@ -146,20 +181,8 @@ class QasmModule(ABC):  # pylint: disable=too-many-instance-attributes
         Returns:
             QasmModule: The module with the measurements removed if in_place is False
         """
-        stmt_list = (
-            self._statements
-            if len(self._unrolled_ast.statements) == 0
-            else self._unrolled_ast.statements
-        )
-        stmts_without_meas = [
-            stmt
-            for stmt in stmt_list
-            if not isinstance(stmt, qasm3_ast.QuantumMeasurementStatement)
-        ]
-        curr_module = self
-
-        if not in_place:
-            curr_module = self.copy()
+        curr_module = self if in_place else self.copy()
+        stmts_without_meas = curr_module._statements_without(qasm3_ast.QuantumMeasurementStatement)
 
         for qubit in curr_module._qubit_depths.values():
             qubit.num_measurements = 0
@@ -205,17 +228,8 @@ class QasmModule(ABC):  # pylint: disable=too-many-instance-attributes
         Returns:
             QasmModule: The module with the barriers removed if in_place is False
         """
-        stmt_list = (
-            self._statements
-            if len(self._unrolled_ast.statements) == 0
-            else self._unrolled_ast.statements
-        )
-        stmts_without_barriers = [
-            stmt for stmt in stmt_list if not isinstance(stmt, qasm3_ast.QuantumBarrier)
-        ]
-        curr_module = self
-        if not in_place:
-            curr_module = self.copy()
+        curr_module = self if in_place else self.copy()
+        stmts_without_barriers = curr_module._statements_without(qasm3_ast.QuantumBarrier)
 
         for qubit in curr_module._qubit_depths.values():
             qubit.num_barriers = 0
@@ -235,17 +249,8 @@ class QasmModule(ABC):  # pylint: disable=too-many-instance-attributes
         Returns:
             QasmModule: The module with the includes removed if in_place is False, None otherwise
         """
-        stmt_list = (
-            self._statements
-            if len(self._unrolled_ast.statements) == 0
-            else self._unrolled_ast.statements
-        )
-        stmts_without_includes = [
-            stmt for stmt in stmt_list if not isinstance(stmt, qasm3_ast.Include)
-        ]
-        curr_module = self
-        if not in_place:
-            curr_module = self.copy()
+        curr_module = self if in_place else self.copy()
+        stmts_without_includes = curr_module._statements_without(qasm3_ast.Include)
 
         curr_module._statements = stmts_without_includes
         curr_module._unrolled_ast.statements = stmts_without_includes
